@@ -59,6 +59,13 @@ Definition sinks_guarded (sk : list instr) : bool :=
 (* two entry points (a call through Qt's macros / a direct call of process()) exclude each other only if they are
    guarded by one and the same mutex *)
 Definition share_guard (a b : list instr) : bool := (shape L a && shape L b) || (shape M a && shape M b).
+(* a FAMILY of skeletons (the entry points the threads of one run may use):
+   [bracketed_family]: every member is bracketed by one and the same mutex (pipeline runs exclude each other);
+   [guarded_family]:   moreover every sink-touching instruction (Work and Flush) of every member lies inside the critical
+                       section of that same mutex *)
+Definition bracketed_family (sks : list (list instr)) : bool := forallb (shape L) sks || forallb (shape M) sks.
+Definition guarded_by (g : mutex) (sk : list instr) : bool := shape g sk && flush_guarded_from g sk P0.
+Definition guarded_family (sks : list (list instr)) : bool := forallb (guarded_by L) sks || forallb (guarded_by M) sks.
 
 (* ---- interleaving semantics -------------------------------------------------------------------- *)
 Inductive wphase := W0 | W1 | W2 (tmp : nat) | W3 (tmp : nat).
@@ -76,10 +83,11 @@ Definition updm {A} (f : mutex -> A) (m : mutex) (v : A) : mutex -> A := fun m' 
 Definition mk_t (p : nat) (w : wphase) (i : nat) : tstate := {| pc := p; wph := w; idx := i |}.
 
 (* one step of thread t; None = blocked (or finished: all its messages sent) *)
-Definition step (sk : list instr) (quota : nat -> nat) (s : state) (t : nat) : option state :=
+(* [skf t] is the skeleton thread t runs (its entry point into the logger): different threads may run different ones *)
+Definition step (skf : nat -> list instr) (quota : nat -> nat) (s : state) (t : nat) : option state :=
   let ts := th s t in
   if Nat.leb (quota t) (idx ts) then None else
-  match nth_error sk (pc ts) with
+  match nth_error (skf t) (pc ts) with
   | None =>    (* the call returns; next message *)
       Some {| th := upd (th s) t (mk_t 0 W0 (S (idx ts))); owner := owner s; count := count s;
               log := log s; acq := acq s; evs := evs s |}
@@ -114,16 +122,18 @@ Definition step (sk : list instr) (quota : nat -> nat) (s : state) (t : nat) : o
               log := log s; acq := acq s; evs := evs s |}
   end.
 (* a schedule is any list of thread ids; a blocked thread's turn is skipped *)
-Fixpoint run (sk : list instr) (quota : nat -> nat) (s : state) (sched : list nat) : state :=
+Fixpoint run (skf : nat -> list instr) (quota : nat -> nat) (s : state) (sched : list nat) : state :=
   match sched with
   | [] => s
-  | t :: r => match step sk quota s t with Some s' => run sk quota s' r | None => run sk quota s r end
+  | t :: r => match step skf quota s t with Some s' => run skf quota s' r | None => run skf quota s r end
   end.
+(* all threads through one entry point *)
+Definition uni (sk : list instr) : nat -> list instr := fun _ => sk.
 Definition s0 : state := {| th := fun _ => mk_t 0 W0 0; owner := fun _ => None; count := 0; log := []; acq := []; evs := [] |}.
 Definition inside (s : state) (t : nat) : bool := match wph (th s t) with W0 => false | _ => true end.
 (* thread t is at (about to execute / executing) an instruction that touches the sinks *)
-Definition at_sink (sk : list instr) (s : state) (t : nat) : bool :=
-  match nth_error sk (pc (th s t)) with Some Work | Some Flush => true | _ => false end.
+Definition at_sink (skf : nat -> list instr) (s : state) (t : nat) : bool :=
+  match nth_error (skf t) (pc (th s t)) with Some Work | Some Flush => true | _ => false end.
 (* every thread below n has sent all its messages *)
 Definition finishedb (n : nat) (quota : nat -> nat) (s : state) : bool :=
   forallb (fun t => Nat.eqb (idx (th s t)) (quota t)) (seq 0 n).
@@ -214,5 +224,5 @@ Fixpoint wf_from (sk : list instr) (hl hm : bool) : bool :=
 Definition solo_ok (sk : list instr) : bool := wf_from sk false false.
 (* the schedule that runs whole messages one after the other, in the given order of (thread, index):
    one activation of a skeleton with a single Work takes length sk + 3 steps, plus the return *)
-Definition whole_msgs (sk : list instr) (order : list (nat * nat)) : list nat :=
-  flat_map (fun x => repeat (fst x) (length sk + 4)) order.
+Definition whole_msgs (skf : nat -> list instr) (order : list (nat * nat)) : list nat :=
+  flat_map (fun x => repeat (fst x) (length (skf (fst x)) + 4)) order.
